@@ -146,6 +146,40 @@ theorem treeReduce_count {β : Type} (op : β → β → β) (k : Nat) (hk : 0 <
     simp only [treeReduce]
     exact ih _ _ (nblocks_le_pow hk hpow) (nblocks_pos hk hnb)
 
+/-! ### arg reductions: first extremal index -/
+
+theorem argmaxCombine_assoc (a b c : Nat × Nat) :
+    argmaxCombine (argmaxCombine a b) c = argmaxCombine a (argmaxCombine b c) := by
+  unfold argmaxCombine
+  by_cases h1 : a.2 < b.2 <;> by_cases h2 : b.2 < c.2 <;> by_cases h3 : a.2 < c.2 <;> simp [h1, h2, h3] <;> omega
+
+theorem argmax_fold_first (l : List (Nat × Nat)) (acc : Nat × Nat) (pre mid : List (Nat × Nat))
+    (hpre : ∀ y ∈ pre, y.2 < acc.2) (hmid : ∀ y ∈ mid, y.2 ≤ acc.2) :
+    ∃ pre' mid', pre ++ acc :: mid ++ l = pre' ++ (l.foldl argmaxCombine acc) :: mid'
+      ∧ (∀ y ∈ pre', y.2 < (l.foldl argmaxCombine acc).2) ∧ (∀ y ∈ mid', y.2 ≤ (l.foldl argmaxCombine acc).2) := by
+  induction l generalizing acc pre mid with
+  | nil => exact ⟨pre, mid, by simp, hpre, hmid⟩
+  | cons y l ih =>
+    simp only [List.foldl]
+    by_cases h : acc.2 < y.2
+    · have hc : argmaxCombine acc y = y := by simp [argmaxCombine, h]
+      rw [hc]
+      obtain ⟨p, m, he, hp, hm⟩ := ih y (pre ++ acc :: mid) [] (by
+        intro z hz
+        rcases List.mem_append.mp hz with hz | hz
+        · have := hpre z hz; omega
+        · rcases List.mem_cons.mp hz with hz | hz
+          · subst hz; exact h
+          · have := hmid z hz; omega) (by simp)
+      exact ⟨p, m, by simpa using he, hp, hm⟩
+    · have hc : argmaxCombine acc y = acc := by simp [argmaxCombine, h]
+      rw [hc]
+      obtain ⟨p, m, he, hp, hm⟩ := ih acc pre (mid ++ [y]) hpre (by
+        intro z hz
+        rcases List.mem_append.mp hz with hz | hz
+        · exact hmid z hz
+        · simp at hz; subst hz; omega)
+      exact ⟨p, m, by simpa using he, hp, hm⟩
 /-! ### repeat -/
 
 theorem repeat_arith (q s c j r : Nat) (hr : 0 < r) :
